@@ -279,6 +279,18 @@ def c_form(r, form, m, n):
     return None
 
 
+def _usable(r, m, n):
+    """consistent shapes and finite entries (whatever parts were returned)"""
+    ks = []
+    for a, ax, other, size in ((r.L, 1, 0, m), (r.s, 0, None, None), (r.R, 0, 1, n)):
+        if a is None:
+            continue
+        if a.ndim != (1 if other is None else 2) or (other is not None and a.shape[other] != size):
+            return False
+        ks.append(a.shape[ax])
+    return len(set(ks)) == 1 and _finite(r)
+
+
 def c_bond(r, max_bond, d=None):
     k = r.k
     if k is None:
@@ -576,7 +588,8 @@ def _kinds(method):
         return ("pd",)
     if method in ("qr:cholesky", "lq:cholesky"):
         return ("spec", "degen")
-    if method in GRAM_BASED:
+    if method in GRAM_BASED or method == "svd:rand":
+        # svd:rand: two power iterations without re-orthogonalisation lose directions with (s_i / s_0)^5 < eps
         return ("spec", "degen", "rankdef")
     return ("gauss", "spec", "degen", "rankdef", "decay")
 
@@ -602,6 +615,7 @@ def table(cx):
     shapes = SHAPES_Q if cx.quick else SHAPES_T
     spellings = ALL_SPELLINGS
     idx = 0
+    nall = 0
     for method, absorb in itertools.product(TABLE_METHODS, spellings):
         form = _form(method, absorb)
         must = form in MUST_ACCEPT[method]
@@ -619,6 +633,9 @@ def table(cx):
                           for j, kd in enumerate(kinds)]
                 combos += [(kinds[idx % len(kinds)], md, "2d", 0.0) for md in MODES]
             for kind, mode, path, cutoff in combos:
+                nall += 1
+                if _costly(cx, method, dtype, path, nall):
+                    continue
                 if not cx.mine():
                     continue
                 if cx.out_of_time():
@@ -677,8 +694,8 @@ def _array_contracts(cx, entry, params, lz, xs, method, form, dtype, cutoff, mod
                   allow_reject=allow_reject)
     if st == "rejected" or lz.failed:
         return
-    if st == "violation" and not all(_finite(r) for r in lz.get()):
-        return  # non-finite output is reported once; the numerical contracts are meaningless on it
+    if st == "violation" and not all(_usable(r, m, n) for r in lz.get()):
+        return  # non-finite / inconsistently shaped output is reported once; the numerical contracts are meaningless on it
 
     def each(fn):
         def thunk():
@@ -731,6 +748,14 @@ def _pad(s, k):
     if k is None or k <= len(s):
         return s
     return np.concatenate([s, np.zeros(k - len(s))])
+
+
+def _costly(cx, method, dtype, path, counter):
+    """svd:eig on single precision through the accelerated path currently fails inside numba type inference (a failed
+    compilation per call, ~0.2 s): these cases are subsampled 1:3 (quick) / 1:12 (thorough), deterministically"""
+    if method in ("svd:eig", "eig") and dtype in ("float32", "complex64") and path in ("api", "2d"):
+        return counter % (3 if cx.quick else 12) != 0
+    return False
 
 
 def _selector(cx, salt):
@@ -800,6 +825,8 @@ def truncation(cx):
         for j in range(nsamp):
             # selection of the remaining dimensions: drawn for every enumerated case (chunk independent)
             a_i, d_i, s_i, k_i, sc_i, inf_i = (int(v) for v in sel.integers(0, 1 << 30, size=6))
+            if _costly(cx, method, DTYPES[d_i % 4], path, a_i):
+                continue
             if not cx.mine():
                 continue
             if cx.out_of_time():
@@ -864,13 +891,13 @@ def truncation(cx):
                     ra = Res(*_split3(qd.array_split(x, **kw)), error=_err_b(ia, 0, 1))
                     rg = Res(*_split3(_generic_call(qd, method, x, form, ecut, emode, emb, rn, ig)), error=_err_b(ig, 0, 1))
                     tl = _tols(method, dtype)
-                    return _agree(ra, rg, _up(x), tl, _rule_k(_svals(_up(x)), ecut, emode, emb, tl["val"]))
+                    return _agree(ra, rg, _up(x), tl, _rule_k(_svals(_up(x)), ecut, emode, emb, tl["val"]), form)
 
                 cx.check("accelerated (numba) and generic implementation of the same split driver agree on rank, kept "
                          "values, error and product", dict(params, path="api-vs-generic"), t_rel)
 
 
-def _agree(ra, rg, x, tl, interval):
+def _agree(ra, rg, x, tl, interval, form=None):
     if ra.eff != rg.eff:
         return f"returned parts differ: {ra.eff} vs {rg.eff}"
     if ra.k != rg.k:
@@ -878,8 +905,11 @@ def _agree(ra, rg, x, tl, interval):
         if lo <= ra.k <= hi and lo <= rg.k <= hi:
             return None  # a tie of the cutoff rule (values at the threshold within rounding): unconstrained
         return f"kept rank differs: accelerated {ra.k}, generic {rg.k}"
-    if not (_finite(ra) and _finite(rg)):
-        return "non-finite entries"
+    fa, fg = _finite(ra), _finite(rg)
+    if not fa and not fg:
+        return None  # reported by the contract on finite factors
+    if fa != fg:
+        return f"non-finite entries in the output of one implementation only (accelerated finite: {fa}, generic finite: {fg})"
     sref = _svals(x)
     nx = max(np.linalg.norm(x), 1e-300)
     s0 = sref[0] if len(sref) else 0.0
@@ -893,7 +923,9 @@ def _agree(ra, rg, x, tl, interval):
             return np.sort(np.abs(r.s))[::-1]
         if r.eff == "LR":
             return _svals(r.L @ r.R)[:k]
-        return _svals(r.L if r.eff == "Lonly" else r.R)[:k]
+        v = _svals(r.L if r.eff == "Lonly" else r.R)[:k]
+        # square-root forms carry sqrt(s): compare s (the fourth root of Gram-matrix rounding noise is not small)
+        return v ** 2 if form in ("Usq", "sqVH") else v
 
     va, vg = vals(ra), vals(rg)
     if va.shape != vg.shape or (va.size and np.max(np.abs(va - vg)) > vt * max(1.0, np.max(va) / max(s0, 1e-300))):
@@ -934,7 +966,7 @@ def svd_rand_lu(cx):
         if not cx.mine():
             continue
         form = _form("svd:rand", absorb)
-        kind = ("gauss", "spec", "degen", "rankdef", "decay")[idx % 5]
+        kind = _kinds("svd:rand")[idx % 3]
         x = _matrix(rng, m, n, dtype, kind, (1.0, 2.5)[idx % 2])
         params = dict(method="svd:rand", absorb=absorb, form=form, dtype=dtype, shape=[m, n], kind=kind, max_bond=max_bond,
                       cutoff=0.0, regime="full-sketch")
@@ -1050,7 +1082,7 @@ def iterative(cx):
         x64, sref = _up(x), _svals(_up(x))
         st = cx.check("array_split (iterative driver): returns finite factors in the requested form", params,
                       lambda lz=lz, form=form, m=m, n=n: c_form(lz.get()[0], form, m, n))
-        if lz.failed:
+        if lz.failed or (st == "violation" and not _usable(lz.get()[0], m, n)):
             continue
         cx.check("array_split (iterative driver): bond size never zero, never above max_bond", params,
                  lambda lz=lz, emb=emb, d=d: c_bond(lz.get()[0], emb, d))
@@ -1061,7 +1093,9 @@ def iterative(cx):
             cx.check("array_split (iterative driver): number of kept values is the least satisfying the documented cutoff rule",
                      params, lambda lz=lz, emb=emb, d=d: None if lz.get()[0].k == min(d, emb) else f"kept {lz.get()[0].k}, expected {min(d, emb)}")
         ps = _powers(ern, emode)
-        if sc != "static" or method in ("svds", "eigsh"):
+        # randomised drivers are only near-optimal when they truncate inside the spectrum: optimality is claimed for the
+        # Krylov drivers, for rsvd (two power iterations) across a gap of 400, and wherever the kept rank covers the input
+        if (sc != "static" or method in ("svds", "eigsh")) and not (method == "isvd" and sc == "gap"):
             cx.check("array_split (iterative driver): factors contract to the input when untruncated, to a best rank-k "
                      "approximation (Eckart-Young) when truncated", params,
                      lambda lz=lz, x64=x64, sref=sref, form=form, ps=ps, tl=tl: c_approx(lz.get()[0], x64, sref, form, ps, 10 * tl["rec"], 1e-4))
@@ -1113,6 +1147,8 @@ def labelled(cx):
     ncase = 2600 if cx.quick else 40000
     for i in range(ncase):
         draws = [int(v) for v in sel.integers(0, 1 << 30, size=16)]
+        if _costly(cx, LABEL_METHODS[draws[0] % len(LABEL_METHODS)], DTYPES[draws[2] % 4], "api", draws[1]):
+            continue
         if not cx.mine():
             continue
         if cx.out_of_time():
@@ -1173,7 +1209,9 @@ def labelled(cx):
         rinds = tuple(labels[len(ldims):len(ldims) + len(rdims)])
         inds0 = linds + rinds
         perm = list(rng.permutation(len(inds0))) if len(inds0) else []
-        data0 = np.asarray(x).reshape(*ldims, *rdims)
+        if not ldims and not rdims:
+            continue  # a tensor without labels has no bipartition
+        data0 = np.asarray(x).reshape((*ldims, *rdims))
         data = np.ascontiguousarray(np.transpose(data0, perm)) if perm else data0
         inds = tuple(inds0[p] for p in perm)
         tags = ("T0", "X")
@@ -1272,7 +1310,9 @@ def labelled(cx):
         labels = ["a", "b", "c", "d", "e", "f"]
         linds, rinds = tuple(labels[:len(ldims)]), tuple(labels[len(ldims):len(ldims) + len(rdims)])
         perm = list(rng.permutation(len(linds + rinds)))
-        data = np.ascontiguousarray(np.transpose(x.reshape(*ldims, *rdims), perm)) if perm else x.reshape(())
+        if not perm:
+            continue
+        data = np.ascontiguousarray(np.transpose(x.reshape((*ldims, *rdims)), perm))
         inds = tuple((linds + rinds)[p] for p in perm)
         msv = bool(draws[5] % 2)
         params = dict(entry="Tensor.split", get="values", method=method, dtype=dtype, ldims=list(ldims), rdims=list(rdims),
@@ -1334,8 +1374,8 @@ def labelled(cx):
             tn = qtn.TensorNetwork([qtn.Tensor(A, "abx", tags="A"), qtn.Tensor(B, "xcd", tags="B")])
             out = tn.split(list(linds), right_inds=list(rinds), method=method, absorb=absorb, cutoff=cutoff, cutoff_mode="rel",
                            max_bond=max_bond, get="tensors")
-            return _normalise_labelled(out, "tensors", form, absorb, False, None, linds, rinds, xm.shape, (), None, None, None,
-                                       ("a", "b", "c", "d"), None, [])
+            return _normalise_labelled(out, "tensors", form, absorb, False, None, linds, rinds, xm.shape, ("A", "B"), None, None,
+                                       None, ("a", "b", "c", "d"), None, [])
 
         lz = Lazy(call)
         st = cx.check("TensorNetwork.split: accepted call returns factors over the requested labels joined by one new bond",
